@@ -56,6 +56,7 @@ type retryLine struct {
 }
 
 type script struct {
+	timeouts    bool // temporary errors are deadline expiries (Timeout() is true as well)
 	mu          sync.Mutex
 	msg         []byte
 	outcomes    []wOutcome
@@ -85,7 +86,7 @@ func (s *script) step(p []byte) (int, error) {
 	s.transported = append(s.transported, p[:acc]...)
 	switch o.Err {
 	case "tmp":
-		return acc, &memnet.NetErr{Msg: "scripted temporary error", Temp: true}
+		return acc, &memnet.NetErr{Msg: "scripted temporary error", Temp: true, TO: s.timeouts}
 	case "perm":
 		return acc, &memnet.NetErr{Msg: "scripted permanent error"}
 	}
@@ -122,6 +123,38 @@ func runRetry(id int, c *retryCase, target string) retryLine {
 	panicked := ""
 	if target == "writer" {
 		panicked = safely(func() { n, err = m.WriteToWithRetry(scriptWriter{s}, uint(c.Retries)) })
+	} else if target == "server-wt" {
+		// an accepted connection of a Server with WriteTimeout; the temporary errors are deadline expiries;
+		// the message is written by a handler
+		s.timeouts = true
+		mc := memnet.NewConn()
+		armed := false
+		mc.OnWrite = func(k int, b []byte) memnet.WriteOutcome {
+			if !armed {
+				return memnet.WriteOutcome{N: -1}
+			}
+			acc, e := s.step(b)
+			return memnet.WriteOutcome{N: acc, Err: e}
+		}
+		done := make(chan struct{})
+		mux := diam.NewServeMux()
+		mux.HandleFunc("ALL", func(dc diam.Conn, _ *diam.Message) {
+			armed = true
+			panicked = safely(func() { n, err = m.WriteToWithRetry(dc, uint(c.Retries)) })
+			armed = false
+			close(done)
+		})
+		ln := memnet.NewListener()
+		go (&diam.Server{Handler: mux, Dict: dict.Default, WriteTimeout: time.Second}).Serve(ln)
+		ln.Push(mc)
+		mc.Feed(appMsg(272, 4, true, 1))
+		select {
+		case <-done:
+		case <-time.After(5 * time.Second):
+			panicked = "handler did not finish"
+		}
+		ln.Close()
+		defer mc.Close()
 	} else {
 		mc := memnet.NewConn()
 		mc.OnWrite = func(k int, b []byte) memnet.WriteOutcome {
@@ -240,6 +273,51 @@ func runConc(id int, writers, per int, sizes []int, stallAt int) concLine {
 	return l
 }
 
+// runSerWrite: an application that serialises message A itself (Message.Serialize), lets another message
+// B go out through WriteTo, and then hands A's bytes to Conn.Write: both must arrive whole, B before A
+func runSerWrite(id int, sizeA, sizeB int) concLine {
+	l := concLine{Ev: "conc", ID: id, Writers: 2, Per: 1, Sizes: []int{sizeA, sizeB}, StallAt: -1, Obs: concObs{Msgs: []concMsg{}}}
+	mc := memnet.NewConn()
+	dc, _ := diam.NewConn(mc, "10.0.0.2:3868", diam.NewServeMux(), dict.Default)
+	mk := func(w, size int) *diam.Message {
+		id := uint32(w*100 + 1)
+		msg := diam.NewMessage(272, 0x80, 4, id, id, dict.Default)
+		msg.NewAVP(uint32(25), 0x40, 0, datatype.OctetString(bytes.Repeat([]byte{byte(id % 251)}, size-28)))
+		return msg
+	}
+	a, b := mk(1, sizeA), mk(2, sizeB)
+	wire, err := a.Serialize()
+	if err != nil {
+		l.Obs.Errors++
+	}
+	if _, err := b.WriteTo(dc); err != nil {
+		l.Obs.Errors++
+	}
+	if _, err := dc.Write(wire); err != nil {
+		l.Obs.Errors++
+	}
+	msgs, rest := splitMsgs(mc.Out())
+	l.Obs.Rest = len(rest)
+	for _, m := range msgs {
+		w := int(m.HbH / 100)
+		cm := concMsg{W: w, M: int(m.HbH % 100), Whole: true}
+		want := map[int]int{1: sizeA, 2: sizeB}[w]
+		if want == 0 || m.Len != (want+3)&^3 && m.Len != want || len(m.AVPs) != 1 {
+			cm.Whole = false
+		} else {
+			for _, x := range m.AVPs[0].Payload {
+				if x != byte(m.HbH%251) {
+					cm.Whole = false
+				}
+			}
+		}
+		l.Obs.Msgs = append(l.Obs.Msgs, cm)
+	}
+	l.Obs.MaxConc = mc.MaxConcurrentWrites()
+	mc.Close()
+	return l
+}
+
 func Write(a Args) error {
 	out, err := NewOut(a.Out)
 	if err != nil {
@@ -259,10 +337,17 @@ func Write(a Args) error {
 			id++
 			out.Emit(runRetry(id, &c, "writer"))
 			out.Emit(runRetry(id, &c, "conn"))
+			out.Emit(runRetry(id, &c, "server-wt"))
 			return nil
 		})
 		if err != nil {
 			return err
+		}
+	}
+	for _, sa := range []int{100, 1000, 1024, 1100} {
+		for _, sb := range []int{100, 1000, 1100} {
+			id++
+			out.Emit(runSerWrite(id, sa, sb))
 		}
 	}
 	r := rand.New(rand.NewSource(a.Seed))
